@@ -409,14 +409,20 @@ def _full_sem(kind, obj):
     return sem.netlist_sem(obj, roles=True, order_rects=True)
 
 
+def _unordered_net(ns):
+    """C19 speaks of the same modules, kinds, shapes, nets and weights - not of their order in the document."""
+    return {"modules": sorted(ns["modules"], key=lambda m: m["name"]),
+            "nets": sorted(([sorted(e[0]), e[1]] for e in ns["nets"]), key=repr)}
+
+
 def _doc_sem(kind, obj):
     if kind == "die":
         return sem.die_sem(obj)
     if kind == "alloc":
-        return sem.alloc_sem(obj)
+        return sorted(sem.alloc_sem(obj), key=repr)   # same cells, ratios and depths; their order is not prescribed
     # the plain netlist writer is C04's subject; as a transport in this pipeline it is judged on what C19 lists:
     # modules, kinds, shapes, nets and weights (plus centres and aspect ratios); flip flag and per-region areas are not
-    return sem.netlist_sem(obj, flip=False, per_region=False)
+    return _unordered_net(sem.netlist_sem(obj, flip=False, per_region=False))
 
 
 def _reread(ctx, kind, src):
@@ -547,7 +553,7 @@ def _op_write(ctx, o):
         return "differs"
     if o["to"] == "file":
         ctx.files[kind] = (path, want)
-        ctx.files_raw[kind] = _doc_sem(kind, obj)
+        ctx.files_raw[kind] = sem.alloc_sem(back) if kind == "alloc" else _doc_sem(kind, obj)   # cells in file order
     if len(docs) > 1:
         ctx.probe("repeated_writes_identical")
     return outcome
@@ -688,7 +694,7 @@ def _op_netgen(ctx, o):
               {"args": args, "exc": repr(e)[:300], "document": (ctx.fs.text(path) or "")[:500]})
         return "rejected"
     names, nets = _expected_netgen(t, size)
-    got = sem.netlist_sem(net)
+    got = _unordered_net(sem.netlist_sem(net))
     exp_mods = []
     centers = {}
     if o.get("centers"):
@@ -710,12 +716,12 @@ def _op_netgen(ctx, o):
     for n_ in names:
         exp_mods.append({"name": n_, "kind": "soft", "flip": False, "area": {"_": 1.0}, "center": centers.get(n_),
                          "aspect": None, "rects": []})
-    exp = {"modules": exp_mods, "nets": [[m_, float(w_)] for m_, w_ in nets]}
+    exp = _unordered_net({"modules": exp_mods, "nets": [[m_, float(w_)] for m_, w_ in nets]})
     if o.get("centers"):
         # centres: on the grid position, displaced by the requested noise (the draw order is not prescribed: each
         # coordinate must lie within 8 standard deviations of its grid position, exactly on it when the deviation is 0)
         bad = None
-        for gm, em in zip(got["modules"], exp_mods):
+        for gm, em in zip(got["modules"], exp["modules"]):
             gc, ec = gm.get("center"), em["center"]
             if gc is None or any(abs(a - b) > 8 * noise_sd + 1e-9 * max(W, H) for a, b in zip(gc, ec)):
                 bad = (gm["name"], gc, ec)
@@ -866,11 +872,13 @@ def _op_floorset(ctx, o):
     problems = []
     if len(got["modules"]) != nb + len(inst["pins"]):
         problems.append("module count")
+    byname = {m_["name"]: m_ for m_ in got["modules"]}
     for i, (b, poly) in enumerate(blocks):
-        if i >= len(got["modules"]):
-            break
-        gm = got["modules"][i]
-        if gm["name"] != "M%d" % i or gm["kind"] != b["kind"]:
+        gm = byname.get("M%d" % i)
+        if gm is None:
+            problems.append("module %d missing" % i)
+            continue
+        if gm["kind"] != b["kind"]:
             problems.append("module %d name/kind %s/%s" % (i, gm["name"], gm["kind"]))
         # same union of lattice cells
         want_cells = {(x, y) for (x0, y0, x1, y1) in b["boxes"] for x in range(x0, x1) for y in range(y0, y1)}
@@ -888,11 +896,9 @@ def _op_floorset(ctx, o):
         if b["kind"] == "soft" and abs(sum(gm["area"].values()) - len(want_cells) * u * u) > 1e-9 * max(1.0, tot):
             problems.append("module %d area" % i)
     for j, (x, y) in enumerate(inst["pins"]):
-        k = nb + j
-        if k < len(got["modules"]):
-            gm = got["modules"][k]
-            if gm["name"] != "T%d" % j or gm["kind"] != "terminal" or gm["center"] != [x * u, y * u]:
-                problems.append("terminal %d" % j)
+        gm = byname.get("T%d" % j)
+        if gm is None or gm["kind"] != "terminal" or gm["center"] != [x * u, y * u]:
+            problems.append("terminal %d" % j)
     exp_nets = []
     raw = [("M%d" % int(i), "M%d" % int(j), w) for i, j, w in b2b.tolist()] + \
           [("T%d" % int(p), "M%d" % int(i), w) for p, i, w in p2b.tolist()]
@@ -901,7 +907,7 @@ def _op_floorset(ctx, o):
     for a_, b_, w in raw:
         wei = float(w * alpha)
         exp_nets.append([[a_, b_], wei if wei > 0 else 1.0])
-    if canon(exp_nets) != canon(got["nets"]):
+    if canon(sorted(([sorted(e[0]), e[1]] for e in exp_nets), key=repr)) != canon(sorted(([sorted(e[0]), e[1]] for e in got["nets"]), key=repr)):
         problems.append("nets")
     if problems:
         ctx.v("document read back describes a different design", dict(key, what=problems[0].split(" ")[0]),
@@ -1077,8 +1083,8 @@ def _op_rect_solution(ctx, o):
         ctx.v("document rejected by its reader", dict(key, exc=type(e).__name__, terminal=has["terminal"]),
               {"exc": repr(e)[:300], "document": docs[0][:900]})
         return "rejected"
-    src = sem.netlist_sem(netlist, per_region=False, flip=False, aspect=False)
-    got = sem.netlist_sem(back, per_region=False, flip=False, aspect=False)
+    src = _unordered_net(sem.netlist_sem(netlist, per_region=False, flip=False, aspect=False))
+    got = _unordered_net(sem.netlist_sem(back, per_region=False, flip=False, aspect=False))
     # expected: modules of the result get the boxes of the solution
     for m in src["modules"]:
         if m["name"] in result:
@@ -1143,9 +1149,9 @@ def _op_legal(ctx, o):
     if canon(sem.netlist_sem(net, roles=True, order_rects=True)) != before:
         ctx.v("producing a document altered the object", key, {})
         return "object altered"
-    src = sem.netlist_sem(net, per_region=False, flip=False, aspect=False, centers=False)
-    got = sem.netlist_sem(out, per_region=False, flip=False, aspect=False, centers=False)
-    got2 = sem.netlist_sem(out2, per_region=False, flip=False, aspect=False, centers=False)
+    src = _unordered_net(sem.netlist_sem(net, per_region=False, flip=False, aspect=False, centers=False))
+    got = _unordered_net(sem.netlist_sem(out, per_region=False, flip=False, aspect=False, centers=False))
+    got2 = _unordered_net(sem.netlist_sem(out2, per_region=False, flip=False, aspect=False, centers=False))
     if canon(got) != canon(got2):
         ctx.v("repeated writes give different documents", key, {})
         return "writes differ"
